@@ -1369,9 +1369,9 @@ def coq_case(case, out, tabs):
 # ------------------------------------------------------------------------------------------------
 class C14(Prop):
     pid = "C14"
-    theorems = ["C14_select_distinct_inputs", "C14_sorted_by_decreasing_measure", "C14_at_most_n_best_per_measure",
-                "C14_greedy_independent", "C14_greedy_maximal", "C14_checker_sound",
-                "C14_union_independent_refuted", "C14_best_feature_returned"]
+    theorems = ["C14_select_distinct_inputs", "C14_sorted_by_decreasing_measure",
+                "C14_at_most_n_best_per_measure", "C14_greedy_independent", "C14_greedy_maximal",
+                "C14_best_feature_returned", "C14_union_independent_refuted", "C14_checker_sound"]
     rule = ("one ClassificationSelector/RegressionSelector.select(X, y) per case: 8-60 rows, up to 7 "
             "quantitative and 5 qualitative features built as correlated clusters (copies, affine / "
             "monotone / noisy / coarsened versions, renamed categories), target-informative columns, "
